@@ -43,6 +43,8 @@ fn mixed(n: usize) -> Vec<u8> {
         .collect()
 }
 
+const JSON_PAYLOAD: &[u8] = br#"{"a":[1,2,{"b":null}],"s":"gzip json payload, long enough to be worth compressing: aaaaaaaaaaaaaaaaaaaaaaaaaaaaaaaa"}"#;
+
 fn payloads(tier: Tier) -> Vec<(&'static str, Arc<Vec<u8>>)> {
     let mut v = vec![
         ("empty", Arc::new(vec![])),
@@ -50,6 +52,7 @@ fn payloads(tier: Tier) -> Vec<(&'static str, Arc<Vec<u8>>)> {
         ("inc300", Arc::new(lcg_bytes(300, 1))),
         ("rep300", Arc::new(b"abc".repeat(100))),
         ("big70k", Arc::new(mixed(70000))),
+        ("json", Arc::new(JSON_PAYLOAD.to_vec())),
     ];
     if tier == Tier::Thorough {
         v.push(("big200k", Arc::new(mixed(200000))));
@@ -201,6 +204,10 @@ pub enum Damage {
 pub enum ReadMode {
     Const(usize),
     Bytes,
+    /// `json()` / `json_utf8()`: only used with the JSON payload; yields the payload bytes again when
+    /// the parsed value equals the payload's value
+    Json,
+    JsonUtf8,
 }
 
 #[derive(Clone, Debug, Serialize, Deserialize)]
@@ -219,6 +226,9 @@ pub struct Case {
     /// controls what is announced: a coded response must still be decoded)
     #[serde(default)]
     pub no_announce: u8,
+    /// response status (0 stands for 200): whether a body is decoded does not depend on it
+    #[serde(default)]
+    pub status: u16,
 }
 
 fn spellings(c: Coding) -> Vec<(&'static str, &'static str)> {
@@ -228,6 +238,7 @@ fn spellings(c: Coding) -> Vec<(&'static str, &'static str)> {
             ("content-encoding", "GZIP"),
             ("Content-Encoding", "identity, gzip"),
             ("Content-Encoding", "GZip"),
+            ("Content-Encoding", "identity,\tgzip"),
             ("Transfer-Encoding", "gzip, chunked"),
         ],
         Coding::Deflate => vec![
@@ -235,6 +246,7 @@ fn spellings(c: Coding) -> Vec<(&'static str, &'static str)> {
             ("CONTENT-ENCODING", "Deflate"),
             ("Content-Encoding", "identity,deflate"),
             ("Content-Encoding", "DEFLATE"),
+            ("Content-Encoding", "identity ,\t deflate"),
             ("Transfer-Encoding", "deflate, chunked"),
         ],
     }
@@ -290,7 +302,7 @@ fn build_wire(c: &Case, s: &Stream) -> (Vec<u8>, Vec<u8>, bool) {
     let sp = spellings(s.coding);
     let (hn, hv) = sp[c.spelling];
     let te_coded = hn.eq_ignore_ascii_case("transfer-encoding");
-    let mut head = b"HTTP/1.1 200 OK\r\n".to_vec();
+    let mut head = format!("HTTP/1.1 {} OK\r\n", if c.status == 0 { 200 } else { c.status }).into_bytes();
     let mut fields: Vec<(String, String)> = Vec::new();
     match &c.passthrough {
         None => {
@@ -376,6 +388,16 @@ fn run(c: &Case, s: &Stream) -> (Obs, Vec<u8>, bool) {
                 Ok(b) => Obs::Done(b),
                 Err(e) => Obs::Err(vec![], e.to_string()),
             },
+            ReadMode::Json | ReadMode::JsonUtf8 => {
+                let r = if read == ReadMode::Json { resp.json::<serde_json::Value>() } else { resp.json_utf8::<serde_json::Value>() };
+                match r {
+                    Ok(v) => {
+                        let want: serde_json::Value = serde_json::from_slice(JSON_PAYLOAD).unwrap();
+                        Obs::Done(if v == want { JSON_PAYLOAD.to_vec() } else { b"MISMATCH".to_vec() })
+                    }
+                    Err(e) => Obs::Err(vec![], e.to_string()),
+                }
+            }
             ReadMode::Const(k) => {
                 let mut out = Vec::new();
                 let mut buf = vec![0u8; k];
@@ -474,6 +496,7 @@ fn cases_for(s: &Stream, tier: Tier) -> Vec<Case> {
         passthrough: None,
         head_request: false,
         no_announce: 0,
+        status: 0,
     };
     let nsp = spellings(s.coding).len();
     let head_len = 60; // heads are 40..80 bytes; cuts are placed relative to the end of the wire
@@ -561,6 +584,46 @@ fn cases_for(s: &Stream, tier: Tier) -> Vec<Case> {
             for framing in [Framing::Length, Framing::Chunked, Framing::Close] {
                 for r in [ReadMode::Const(7), ReadMode::Const(200000), ReadMode::Bytes] {
                     v.push(mk(framing, 0, Policy::default(), r, Damage::TrailerFlip(bit)));
+                }
+            }
+        }
+    }
+    // every status that carries a body: the coding is decoded, damage is reported
+    if s.name.contains(".l6.") || s.name.contains(".fixed.") {
+        for status in [201u16, 203, 206, 226, 300, 400, 404, 416, 500, 503] {
+            for framing in [Framing::Length, Framing::Chunked, Framing::Close] {
+                let mut c = mk(framing, 0, Policy::default(), ReadMode::Bytes, Damage::None);
+                c.status = status;
+                v.push(c);
+                if n > 12 {
+                    let mut c = mk(framing, 0, Policy::default(), ReadMode::Const(7), Damage::TruncConsistent(n / 2));
+                    c.status = status;
+                    v.push(c);
+                }
+            }
+        }
+    }
+    // the JSON helpers read the body too: a damaged coded stream must fail them as well
+    if s.name.contains("json.") {
+        for r in [ReadMode::Json, ReadMode::JsonUtf8] {
+            for framing in [Framing::Length, Framing::Chunked, Framing::Close] {
+                v.push(mk(framing, 0, Policy::default(), r, Damage::None));
+                v.push(mk(framing, 0, Policy { cuts: vec![], uniform: Some(1) }, r, Damage::None));
+                if n > 12 {
+                    for at in (n - 9)..n {
+                        v.push(mk(framing, 0, Policy::default(), r, Damage::TruncConsistent(at)));
+                        if framing != Framing::Close {
+                            v.push(mk(framing, 0, Policy::default(), r, Damage::TruncFraming(at)));
+                        }
+                    }
+                    for at in [n / 2, 12] {
+                        v.push(mk(framing, 0, Policy::default(), r, Damage::TruncConsistent(at)));
+                    }
+                    if s.coding == Coding::Gzip {
+                        for bit in 0..64 {
+                            v.push(mk(framing, 0, Policy::default(), r, Damage::TrailerFlip(bit)));
+                        }
+                    }
                 }
             }
         }
